@@ -17,7 +17,7 @@ CLASS_POOL = [
     [0, 1], [1, 2, 3, 4], [3, 1, 2, 0], [0, 300, 7], list(range(2, 11)), [0, 2, 1, 3], [0, 3, 1, 2, 4],
 ]
 BAD_KINDS = ['rows', 'length', 'words', 'type_traces', 'type_data', 'float_data', 'first_range', 'neg_auto',
-             'lowmem', 'not_built', 'tpl_two_words', 'traces_1d', 'f16_traces']
+             'lowmem', 'not_built', 'tpl_two_words', 'traces_1d', 'f16_traces', 'traces_3d']
 
 
 RULE = {
@@ -424,7 +424,7 @@ def generate_c11(seed, tier):
 def bad_applicable(bk, kind, first, auto):
     if bk in ('rows', 'type_traces', 'type_data'):
         return True
-    if bk == 'traces_1d':
+    if bk in ('traces_1d', 'traces_3d'):
         return kind != 'ttacc'
     if bk == 'f16_traces':
         # half-precision traces pass every Python-level check and are refused inside the compiled kernel call (numba has no float16 arrays)
@@ -563,6 +563,8 @@ def _bad_args(scn, bk, tr, da):
         return np.ascontiguousarray(tr[:, 0]), da
     if bk == 'f16_traces':
         return tr.astype('float16'), da
+    if bk == 'traces_3d':
+        return np.ascontiguousarray(tr[:, :, None]), da          # right row count and length, one dimension too many
     if bk == 'type_data':
         return tr, None
     if bk == 'float_data':
